@@ -26,6 +26,10 @@ import (
 type recProvider struct {
 	lastKey, lastVal []byte
 	items            []badger.Item
+	// inside a transaction Badger keeps a REFERENCE to the key and value slices until the commit
+	// ("users must not modify or reuse the key and val until the end of the transaction")
+	retain bool
+	kept   [][2][]byte
 }
 
 func (p *recProvider) RunTransaction(ctx context.Context, fn transactor.TransactionFn) error {
@@ -34,6 +38,9 @@ func (p *recProvider) RunTransaction(ctx context.Context, fn transactor.Transact
 func (p *recProvider) DB(context.Context) badger.QueryManager { return p }
 func (p *recProvider) Set(k, v []byte) error {
 	p.lastKey, p.lastVal = append([]byte(nil), k...), append([]byte(nil), v...)
+	if p.retain {
+		p.kept = append(p.kept, [2][]byte{k, v})
+	}
 	return nil
 }
 func (p *recProvider) GetAll(prefix []byte) ([]badger.Item, error) { return p.items, nil }
@@ -109,6 +116,40 @@ func TestVerifC19(t *testing.T) {
 		}()
 		fmt.Fprintln(impl, res)
 	}
+	// several records written in ONE metadata transaction (a Commit's batch): what reaches the store
+	// at the commit — the slices handed over, read when the transaction ends — must be each record's encoding
+	encBatch := func(recs [][4][]byte) {
+		p.retain, p.kept = true, nil
+		errs := make([]bool, len(recs))
+		for i, r := range recs {
+			var txu, cidu uuid.UUID
+			copy(txu[:], r[1])
+			copy(cidu[:], r[2])
+			seq := uint64(i + 1)
+			if len(r[0]) == 8 {
+				seq = 0
+				for _, b := range r[0] {
+					seq = seq<<8 | uint64(b)
+				}
+			}
+			fmt.Fprintf(ops, "enc %d %s %s %s\n", seq, hex.EncodeToString(r[1]), hex.EncodeToString(r[2]), hexOrDash(r[3]))
+			lines++
+			counts["enc_batch"]++
+			before := len(p.kept)
+			err := repo.Set(ctx, model.File{Key: string(r[3]), TxId: txu.String(), ContentId: cidu.String(), Seq: sequence.Seq(seq)})
+			errs[i] = err != nil || len(p.kept) != before+1
+		}
+		j := 0
+		for i := range recs {
+			if errs[i] {
+				fmt.Fprintln(impl, "err")
+				continue
+			}
+			fmt.Fprintln(impl, string(p.kept[j][0])+" "+hex.EncodeToString(p.kept[j][1]))
+			j++
+		}
+		p.retain, p.kept = false, nil
+	}
 	dec := func(data []byte) {
 		lines++
 		counts[fmt.Sprintf("dec_len_%s", map[bool]string{true: "lt40", false: "ge40"}[len(data) < 40])]++
@@ -179,6 +220,28 @@ func TestVerifC19(t *testing.T) {
 		a, b := mk(rng.n(3)*rng.n(20)), mk(rng.n(3)*rng.n(20))
 		dec2(a, b)
 		dec2(b, a)
+	}
+	// batches: 2..8 records per transaction, key lengths on both sides of every plausible buffer size
+	nb := 40
+	if thorough {
+		nb = 600
+	}
+	for i := 0; i < nb; i++ {
+		m := 2 + rng.n(7)
+		var recs [][4][]byte
+		base := []int{0, 1, 8, 24, 40, 64, 88, 89, 100, 118, 128, 200, 255, 300, 1000}[rng.n(15)]
+		for j := 0; j < m; j++ {
+			kl := base
+			if rng.n(3) == 0 {
+				kl = rng.n(2 * (base + 1))
+			}
+			sq := make([]byte, 8)
+			for b := range sq {
+				sq[b] = byte(rng.next())
+			}
+			recs = append(recs, [4][]byte{sq, rng.bytes(16), rng.bytes(16), rng.bytes(kl)})
+		}
+		encBatch(recs)
 	}
 	n := 3000
 	if thorough {
